@@ -18,7 +18,18 @@ import (
 type Value interface{}
 
 // Str is an immutable Go string: a vector of 8-bit terms.
-type Str struct{ B []*smt.Term }
+type Str struct {
+	B []*smt.Term
+	// R, when non-nil, records that B is exactly the UTF-8 encoding of these runes
+	// (known because the engine itself encoded them); it spares re-decoding.
+	R *RuneMeta
+}
+
+// RuneMeta: rune i starts at byte offset Off[i]; Off has one extra entry len(B).
+type RuneMeta struct {
+	Off   []int
+	Runes []*smt.Term
+}
 
 // Slice refers to elements [Off, Off+Len) of the ArrayVal found at (Obj, Path).
 type Slice struct {
@@ -194,7 +205,7 @@ func StrOf(s string) Str {
 	for i := 0; i < len(s); i++ {
 		b[i] = smt.Byte(s[i])
 	}
-	return Str{b}
+	return Str{B: b}
 }
 
 // Concrete returns the Go string if every byte is constant.
@@ -238,7 +249,7 @@ func concatStr(a, b Str) Str {
 	r := make([]*smt.Term, 0, len(a.B)+len(b.B))
 	r = append(r, a.B...)
 	r = append(r, b.B...)
-	return Str{r}
+	return Str{B: r}
 }
 
 func termIsConcrete(v Value) (uint64, bool) {
